@@ -22,8 +22,8 @@ func checkC12(p *Prog, r *Report) {
 		r.Undecided("R0", "anchors", "", "api.FeatureLocalInterface or inbound anchors not found")
 		return
 	}
-	const pend = "FeatureLocal.pendingWriteApprovals"
-	const tally = "FeatureLocal.writeApprovalReceived"
+	var pend = F("FeatureLocal.pendingWriteApprovals")
+	var tally = F("FeatureLocal.writeApprovalReceived")
 	r.Rule("R1", "the inner maps of the approval tally and of the pending approvals are (re)created only after a miss of the outer (peer) key")
 	outerKeyGuard(p, ls, r, "R1", tally, 1)
 	outerKeyGuard(p, ls, r, "R1", pend, 1)
@@ -40,11 +40,11 @@ func checkC12(p *Prog, r *Report) {
 		for _, a := range ls.accessesIn(pend, fn) {
 			switch x := a.Ins.(type) {
 			case *ssa.Call:
-				if builtinName(&x.Call) == "delete" && strings.Contains(Path(x.Call.Args[0]), ".pendingWriteApprovals[]") {
+				if builtinName(&x.Call) == "delete" && strings.Contains(Path(x.Call.Args[0]), "."+FN("FeatureLocal.pendingWriteApprovals")+"[]") {
 					dels = append(dels, x)
 				}
 			case *ssa.Lookup:
-				if x.CommaOk && strings.Contains(Path(x.X), ".pendingWriteApprovals[]") {
+				if x.CommaOk && strings.Contains(Path(x.X), "."+FN("FeatureLocal.pendingWriteApprovals")+"[]") {
 					lookups = append(lookups, x)
 				}
 			}
@@ -209,7 +209,7 @@ func checkC12(p *Prog, r *Report) {
 			}
 			held := false
 			for lp := range ls.At(g) {
-				if lastComp(lp) == "muxResponseCB" {
+				if g := guardOfField(ls, pend); g != "" && lastComp(lp) == g {
 					held = true
 				}
 			}
@@ -252,7 +252,7 @@ func checkC12(p *Prog, r *Report) {
 			guarded := false
 			for _, g := range Guards(start.Block()) {
 				if bo, isB := g.Cond.(*ssa.BinOp); isB && bo.Op == token.GTR && g.Val {
-					if c, isC := bo.X.(*ssa.Call); isC && builtinName(&c.Call) == "len" && strings.HasSuffix(Path(c.Call.Args[0]), ".writeApprovalCallbacks") {
+					if c, isC := bo.X.(*ssa.Call); isC && builtinName(&c.Call) == "len" && strings.HasSuffix(Path(c.Call.Args[0]), "."+FN("FeatureLocal.writeApprovalCallbacks")) {
 						guarded = true
 					}
 				}
@@ -322,12 +322,12 @@ func c12Tally(p *Prog, ls *Lockset, r *Report, fli interface{}) {
 		// the claiming look-up: the second comma-ok look-up (under the final lock) — the one sharing a section with the delete
 		var claim *ssa.Lookup
 		var del *ssa.Call
-		for _, a := range ls.accessesIn("FeatureLocal.pendingWriteApprovals", fn) {
+		for _, a := range ls.accessesIn(F("FeatureLocal.pendingWriteApprovals"), fn) {
 			if c, ok := a.Ins.(*ssa.Call); ok && builtinName(&c.Call) == "delete" {
 				del = c
 			}
 		}
-		for _, a := range ls.accessesIn("FeatureLocal.pendingWriteApprovals", fn) {
+		for _, a := range ls.accessesIn(F("FeatureLocal.pendingWriteApprovals"), fn) {
 			if lk, ok := a.Ins.(*ssa.Lookup); ok && lk.CommaOk && del != nil && len(ls.CommonSections(lk, del)) > 0 {
 				claim = lk
 			}
@@ -359,7 +359,7 @@ func c12Tally(p *Prog, ls *Lockset, r *Report, fli interface{}) {
 					}
 				case isK && k == 1 && bo.Op == token.GTR && strings.Contains(px, "len("):
 					return true, several
-				case bo.Op == token.LSS && strings.Contains(px, ".writeApprovalReceived"):
+				case bo.Op == token.LSS && strings.Contains(px, "."+FN("FeatureLocal.writeApprovalReceived")):
 					return true, !reached
 				}
 				if bo.Op == token.GTR {
